@@ -47,7 +47,7 @@ func init() {
 					if kg && tier == "quick" && a != int(seed%3) {
 						continue
 					}
-					for _, w := range []string{"creds", "flips", "status", "tag", "trunc"} {
+					for _, w := range []string{"creds", "flips", "status", "tag", "trunc", "shorten", "rehandshake"} {
 						cs = append(cs, ev.MkCase("batch", c02Batch{Auth: a, What: w, KG: kg, Seed: seed}))
 					}
 				}
@@ -121,6 +121,20 @@ func c02Exec(run *ev.Run, c ev.Case) {
 				for n := 0; n < 16+40+acLen; n++ {
 					one("trunc", reply, n)
 				}
+			}
+		case "shorten":
+			// the payload itself is shorter (or longer) and the session wrapper's length field agrees with it
+			for reply := 1; reply <= 3; reply++ {
+				for n := 0; n < 40+acLen; n++ {
+					one("shorten", reply, n)
+				}
+				for x := 1; x <= 4; x++ {
+					one("extend", reply, x)
+				}
+			}
+		case "rehandshake":
+			for k := 0; k < 6; k++ {
+				one("rehandshake", 0, k)
 			}
 		}
 	}
@@ -200,6 +214,17 @@ func c02Run(run *ev.Run, o c02One) {
 				return reply, nil
 			}
 			m = m[:o.Arg]
+		case "shorten":
+			if o.Arg >= len(p) {
+				return reply, nil
+			}
+			m = m[:16+o.Arg]
+			m[14], m[15] = byte(o.Arg), byte(o.Arg>>8)
+		case "extend":
+			for i := 0; i < o.Arg; i++ {
+				m = append(m, byte(0x5a+i))
+			}
+			m[14], m[15] = byte(len(m)-16), byte((len(m)-16)>>8)
 		default:
 			return reply, nil
 		}
@@ -207,6 +232,33 @@ func c02Run(run *ev.Run, o c02One) {
 		return m, nil
 	}
 	_ = fakeSID
+	if o.Kind == "rehandshake" {
+		// a first handshake on this connection (correct password; variant: a failing one with
+		// yet another password), then a second one with a password the BMC does not hold
+		first := *opts
+		first.Password = append([]byte(nil), cfg.Password...)
+		switch o.Arg % 3 {
+		case 1:
+			first.Password = []byte("some other password")
+		case 2:
+			first.Password = nil
+		}
+		c1, cancel1 := e.LimitCtx(8)
+		s1, err1 := e.ST.NewV2Session(c1, &first)
+		cancel1()
+		if (o.Arg%3 == 0) != (err1 == nil) {
+			run.Violation("C02:rehandshake-first", fmt.Sprintf("first handshake: err=%v", err1), cs, nil)
+			return
+		}
+		if s1 != nil && o.Arg >= 3 {
+			c2, cancel2 := e.LimitCtx(4)
+			s1.Close(c2)
+			cancel2()
+		}
+		e.BMC.ResetLog()
+		opts.Password = []byte("correct horsf")
+		wantIncorrectPassword = true
+	}
 	ctx, cancel := e.LimitCtx(8)
 	defer cancel()
 	var sess *bmc.V2Session
